@@ -636,14 +636,19 @@ class ProbeFile:
         self.probes: dict[int, dict[str, Any]] = {}  # 1-based line -> probe
         self.open: dict[str, int] = {}
 
-    def add_section(self, sec: str, entries: list[dict[str, Any]], rng: Any) -> None:
+    def add_section(self, sec: str, entries: list[dict[str, Any]], rng: Any, tag: str = "") -> None:
+        """tag: a second instance of the section under another function name (the block of the other checks' probes, which comes
+        first in the file: mypy stops TYPE-checking a block — at module level: the rest of the file, later function bodies included
+        — after an expression of type Never such as `(lambda q: q)()`, and FURB102/FURB132 need the operand's type)"""
         header, indent, _names, _aw = SECTIONS[sec]
+        if tag:
+            header = [h.replace("def fn(", f"def fn{tag}(").replace("def ur(", f"def ur{tag}(").replace("def co(", f"def co{tag}(") for h in header]
         self.lines.append("")
         self.lines += header
         pad = " " * indent
         half = len(entries) // 2
         for i, p in enumerate(entries):
-            if sec == "function" and i == half:
+            if sec == "function" and i == half and not tag:
                 # mypy (allow_redefinition) renames the variable from here on: lr', la'
                 self.lines += [pad + "print(lr, la)", pad + 'lr = "s"', pad + 'la = "s"']
             text = p["template"].replace("<A>", p["a"]).replace("<B>", p["b"])
@@ -686,16 +691,20 @@ STR_OPERANDS = ["vs", "vt", "vk.st", "vj.st", "fs(va)", "fs(vb)", "fs(va, k=vb)"
 def build_cases(rng: Any, quick: bool) -> list[ProbeFile]:
     depth_max = 4 if quick else 6
     n_base = {"module": 46, "function": 26, "unreachable": 14, "platform": 8, "undefined": 12, "async": 8}
-    n_files = 6 if quick else 40
+    n_files = 6 if quick else 30
     files = []
     for fi in range(n_files):
         pf = ProbeFile(f"probe{fi}.py")
+        main_blocks: list[tuple[str, list[dict[str, Any]]]] = []
+        typed_blocks: list[tuple[str, list[dict[str, Any]]]] = []
         for sec, (_h, _ind, names, aw) in SECTIONS.items():
             gen = Gen(rng, names, aw)
             entries: list[dict[str, Any]] = []
+            typed: list[dict[str, Any]] = []
+            target = [entries]
 
             def add(kind: str, a: str, b: str, edit: str = "", template: str = T110, check: str = "FURB110", **kw: Any) -> None:
-                entries.append({"kind": kind, "edit": edit, "a": a, "b": b, "template": template, "check": check, **kw})
+                target[0].append({"kind": kind, "edit": edit, "a": a, "b": b, "template": template, "check": check, **kw})
 
             for _ in range(n_base[sec]):
                 d = rng.choice([1, 2, 2, 3, 3, 4] if depth_max == 4 else [1, 2, 3, 3, 4, 4, 5, 6])
@@ -737,7 +746,9 @@ def build_cases(rng: Any, quick: bool) -> list[ProbeFile]:
                         add("corpus-multiline", a, ml, nm)
                 entries += rest
             if sec in ("module", "function", "unreachable", "platform"):
-                # the other checks, on plain operands (no and/or/if/compare inside, so the diagnostic's line identifies it)
+                # the other checks, on plain operands (no and/or/if/compare/lambda inside, so the diagnostic's line identifies it
+                # and no operand has type Never); they go into a block of their own at the top of the file
+                target[0] = typed
                 pg = Gen(rng, names, False, True)
                 for key, spec in OTHER_CHECKS.items():
                     code = spec.get("code", key)
@@ -763,7 +774,13 @@ def build_cases(rng: Any, quick: bool) -> list[ProbeFile]:
                         b = unparse(pg.expr(1))
                         if b is not None:
                             add("other-check", a, b, "unrelated", spec["t"], code, stmt=spec.get("stmt", False), spec=key)
-            pf.add_section(sec, entries, rng)
+            main_blocks.append((sec, entries))
+            if typed:
+                typed_blocks.append((sec, typed))
+        for sec, block in typed_blocks:
+            pf.add_section(sec, block, rng, tag="_t")
+        for sec, block in main_blocks:
+            pf.add_section(sec, block, rng)
         files.append(pf)
     return files
 
@@ -1289,6 +1306,7 @@ def run(ctx) -> None:
                     res.disagree("unmangle_name", m, _s(a), unmangle_name(m))
 
     # ---- the oracle, through the real checks
+    cands: dict[str, list[dict[str, Any]]] = {}
     for pf in files:
         mode, got, err = lints[pf.fname]
         res.bump("lint-mode:" + mode)
@@ -1327,28 +1345,62 @@ def run(ctx) -> None:
                     cause = "same-comparison-operands"  # the only equal pair sits inside ONE comparison
             cause_class = cause.split(":")[0]
             sig = {"check": p["check"], "direction": "false-positive" if fp else "false-negative", "cause": cause_class}
-            src = minimal_source(p)
             what = (
                 f"{p['check']} {'reported' if fp else 'NOT reported'} for operands `{p['a']}` / `{p['b'].strip()[:80]}` "
                 f"({'they differ syntactically' if fp else 'they are syntactically identical'}; section {p['section']}, cause {cause})"
             )
-            res.violate(
-                what,
-                sig,
-                {
-                    "files": {"probe.py": src},
-                    "argv": ["probe.py", "--enable-all", "--quiet"],
-                    "probe_line": p["_min_line"],
-                    "probe_col": p["_min_col"] if p["check"] == "FURB110" else None,
-                    "code": p["check"],
-                    "observed": "diagnostic present" if flagged else "no diagnostic",
-                    "required": "no diagnostic (operands differ: ast.dump differs)" if fp else "diagnostic (operands identical up to layout)",
-                    "cause": cause,
-                    "kind": p["kind"],
-                    "edit": p["edit"],
-                    "how": "write files into an empty directory, run `python -m refurb` with argv there, look for `code` at probe_line; or: bin/check C06 --replay <this file>",
-                },
-            )
+            res.bump("violation:" + json.dumps(sig, sort_keys=True))
+            lst = cands.setdefault(json.dumps(sig, sort_keys=True), [])
+            if len(lst) < 3:
+                lst.append({"sig": sig, "what": what, "p": p, "pf": pf, "flagged": flagged, "fp": fp, "cause": cause})
+
+    # ---- one replay per signature, and only an input on which the behaviour was SEEN to reproduce: the probe alone in a
+    # minimal file is linted again; if none of (up to three) instances reproduces in isolation, the whole probe file is the replay
+    def observe(files_: dict[str, str], fname: str, code: str, line: int, col: int | None) -> bool:
+        with core.scratch("rv-c06v-") as vd:
+            for n_, t_ in files_.items():
+                (vd / n_).write_text(t_)
+            _mode, got_, _err = lint(vd, fname)
+        c_ = int(code[4:])
+        return any(l == line and k == c_ and (col is None or cc == col) for (l, cc, k) in got_)
+
+    def settle(lst: list[dict[str, Any]]) -> tuple[dict[str, Any], dict[str, Any]]:
+        for v in lst:
+            p = v["p"]
+            src = minimal_source(p)
+            col = p["_min_col"] if p["check"] == "FURB110" else None
+            if observe({"probe.py": src}, "probe.py", p["check"], p["_min_line"], col) == v["flagged"]:
+                return v, {"files": {"probe.py": src}, "argv": ["probe.py", "--enable-all", "--quiet"], "probe_line": p["_min_line"], "probe_col": col, "scope": "minimal file"}
+        v = lst[0]
+        p, pf = v["p"], v["pf"]
+        col = p["col"] if p["check"] == "FURB110" else None
+        again = observe({pf.fname: pf.text()}, pf.fname, p["check"], p["line"], col) == v["flagged"]
+        return v, {
+            "files": {pf.fname: pf.text()}, "argv": [pf.fname, "--enable-all", "--quiet"], "probe_line": p["line"], "probe_col": col,
+            "scope": "whole probe file only: the probe alone in a minimal file behaves as required, so something EARLIER in this file changes the verdict" + ("" if again else " (and a second run of the whole file did not reproduce it either)"),
+        }
+
+    with ThreadPoolExecutor(8) as ex:
+        settled = list(ex.map(settle, cands.values()))
+    for v, rp in settled:
+        p = v["p"]
+        sig = dict(v["sig"])
+        if rp["scope"] != "minimal file":
+            sig["context"] = "whole-file-only"
+        res.violate(
+            v["what"] + ("" if rp["scope"] == "minimal file" else " [reproduces only inside the whole probe file]"),
+            sig,
+            {
+                **rp,
+                "code": p["check"],
+                "observed": "diagnostic present" if v["flagged"] else "no diagnostic",
+                "required": "no diagnostic (operands differ: ast.dump differs)" if v["fp"] else "diagnostic (operands identical up to layout)",
+                "cause": v["cause"],
+                "kind": p["kind"],
+                "edit": p["edit"],
+                "how": "write files into an empty directory, run `python -m refurb` with argv there, look for `code` at probe_line; or: bin/check C06 --replay <this file>",
+            },
+        )
     if res.distribution.get("alias-pairs-flagged"):
         res.notes.append("%d FURB110 probes whose operands differ only by an import alias of the same object (p1/p2, s1/s2) were flagged; not judged (see assumptions)" % res.distribution["alias-pairs-flagged"])
     for pf in files[:1]:
@@ -1413,7 +1465,8 @@ def replay(path) -> int:
     code = int(rp["code"][4:])
     hit = [x for x in diags if x["line"] == rp["probe_line"] and x["code"] == code and (rp.get("probe_col") is None or x["col"] == rp["probe_col"])]
     observed = "diagnostic present" if hit else "no diagnostic"
-    print(f"probe line {rp['probe_line']}: {rp['files']['probe.py'].splitlines()[rp['probe_line'] - 1]}")
+    fname = rp["argv"][0]
+    print(f"{fname} line {rp['probe_line']}: {rp['files'][fname].splitlines()[rp['probe_line'] - 1]}")
     print(f"required: {rp['required']}\nobserved now: {observed}" + (f" — {hit[0]['msg']}" if hit else ""))
     if err.strip():
         print(err[-400:])
